@@ -249,3 +249,12 @@ def run(cx):
         ob.count(sum(x.evals for x in w))
         bad = [v for x in w for v in x.violations]
         ob.require(len(w) == 1 and not bad, "route-reaches-router/no-validation-before-routing", "the request header conversion can reject or alter a route before the router sees it: " + "; ".join(str(v.msg) for v in bad)[:300], "anemo::types::request::RequestHeader::from_raw")
+
+    with cx.ob("C16.7", "R-SIBLING", "one layer out: the prefix an RPC service is mounted under is the prefix of its own method routes for every service definition (generator's SERVICE_NAME ≡ route prefix, C17.1 re-evaluated)") as ob:
+        from . import c17
+        sub = cx.__class__("C16", prog, cx.tier, cx.config, cx.tree, repo=cx.repo)
+        c17.run(sub)
+        w = [x for x in sub.obs if x.oid in ['C17.1']]
+        ob.count(sum(x.evals for x in w))
+        bad = [v for x in w for v in x.violations]
+        ob.require(len(w) == 1 and not bad, "rpc-prefix/generated-name-matches-routes", "a generated service can be mounted under a prefix that does not contain its routes: " + "; ".join(str(v.msg) for v in bad)[:300], "anemo_build::server")
